@@ -18,6 +18,7 @@ import (
 	"runtime/pprof"
 	"strconv"
 	"strings"
+	"sync/atomic"
 	"syscall"
 	"time"
 
@@ -45,6 +46,8 @@ type runner struct {
 	start       time.Time
 	isDone      chan struct{}
 	perfDone    <-chan struct{}
+	// Set once _complete has been written.
+	completed atomic.Bool
 }
 
 func main() {
@@ -304,6 +307,8 @@ func (self *runner) Complete() {
 	if target == core.CompleteFile {
 		if writeError := self.metadata.WriteTime(core.CompleteFile); writeError != nil {
 			util.PrintError(writeError, "monitor", "Could not write complete file.")
+		} else {
+			self.completed.Store(true)
 		}
 	}
 	self.sync()
@@ -437,6 +442,11 @@ func (self *runner) startProfile() error {
 
 func (self *runner) HandleSignal(sig os.Signal) {
 	util.PrintInfo("monitor", "Caught signal %v", sig)
+	if self.completed.Load() {
+		// The job is done and has said so.  Recording an error now would
+		// override that, and the job would be run again on restart.
+		return
+	}
 	cmd := self.job
 	if cmd != nil {
 		proc := cmd.Process
